@@ -270,6 +270,19 @@ TARGETS["search_mfdc_main"] = _search_target("flowpaths/minflowdecompcycles.py",
            "self.solve_time_elapsed > self.time_limit": "=self.o_over[self.o_n]"},
     solved_calls=["self.set_solved()"], chosen_attr="fd_model")
 
+# MinFlowDecomp.solve: the MAIN LOOP only, as for the cyclic class; in addition a kFlowDecomp that its constructor solved (greedy) makes no solver call: o_ext[k]
+TARGETS["search_mfd_main"] = _search_target("flowpaths/minflowdecomp.py", "MinFlowDecomp",
+    [("o_ext", List(BOOL)), ("guessed", BOOL), "aux_gw", "aux_lb", "lb", "nedges", ("gw_set", BOOL), "gw_paths"],
+    model_ctors=["kflowdecomp.kFlowDecomp"], presolved="o_ext", erase_attrs=["solve_time_start", "_solution", "solve_statistics"],
+    pure_calls=["self.G_internal.get_condensed_paths"],
+    aux_calls={"self._solve_with_given_weights()": "aux_gw"}, pre_for={"self.get_lowerbound_k()": "aux_lb"},
+    presolved_models=["self._given_weights_model"],
+    texts={"self.get_lowerbound_k()": "lb", "self.G.number_of_edges()": "nedges",
+           "self.optimization_options.get('optimize_with_guessed_weights', MinFlowDecomp.optimize_with_given_weights)": "guessed",
+           "self._given_weights_model is not None and self._given_weights_model.is_solved()": "gw_set",
+           "len(self._given_weights_model.get_solution(remove_empty_paths=True)['paths'])": "gw_paths"},
+    solved_calls=["self.set_solved()"], chosen_attr="fd_model")
+
 # a query of stDiGraph on data networkx computed (condensation): the expressions below are inputs of the model
 TARGETS["is_scc_edge"] = dict(file="flowpaths/stdigraph.py", cls="stDiGraph", func="is_scc_edge", params=[SELFOBJ, NODE, NODE], defaults=[], ret=BOOL,
                               selfobj=dict(inputs=[], outputs=[],
@@ -409,7 +422,7 @@ def lower_search(fdef, cfg, me, repo, classdef=None):
             if isinstance(n.func, ast.Attribute) and not n.args and not n.keywords and isinstance(n.func.value, ast.Name) and n.func.value.id in models:
                 m = n.func.value.id
                 if n.func.attr == "is_solved" and m in optmodels:
-                    return parse_expr("(%s__pre or SELF.o_last == 0)" % m, n)
+                    return parse_expr(("(%s__pre or SELF.%s[%s] or SELF.o_last == 0)" % (m, cfg["presolved"], m)) if cfg["presolved"] else ("(%s__pre or SELF.o_last == 0)" % m), n)
                 if n.func.attr == "is_solved":
                     return parse_expr("(SELF.%s[%s] or SELF.o_last == 0)" % (cfg["presolved"], m) if cfg["presolved"] else "SELF.o_last == 0", n)
                 if n.func.attr == "get_objective_value" and cfg["objective"]:
